@@ -407,7 +407,7 @@ static KV genCase()
 {
     KV c;
     // outer radius: the shipped values, or any scale (the code imposes none): 10^U[-2,4] with a non-round mantissa
-    const double Rmax = rint(0, 3) != 0 ? rpick({1.0, 1.3, 0.7, 2.0}) : std::pow(10.0, rint(-2, 3)) * runi(1.0, 10.0);
+    const double Rmax = rint(0, 3) != 0 ? rpick({1.0, 1.3, 0.7, 2.0}) : std::pow(10.0, rint(-2, 7)) * runi(1.0, 10.0); // other units, up to 1e8
     const double R0   = Rmax * genR0overRmax();
     int nr_exp        = rweighted({1, 3, 8, 8, 6, 4, 2, 1}); // 0..7
     int div           = rweighted({5, 3, 2, 1});
@@ -452,7 +452,7 @@ static KV genCase()
     c.putD("refinement", refinement);
     c.putI("max_levels", rpick({-1, -1, 0, 1, 2, 3, 4, 6}));
     c.putI("file_mode", rweighted({4, 3, 1, 1, 3, 2, 2}));
-    c.putI("precision", rpick({12, 13, 14, 15, 16, 18, 18}));
+    c.putI("precision", rpick({12, 13, 14, 15, 16, 18, 18, 18, 24, 30, 40})); // more decimals than a double holds are legal too
     c.putU("mut_seed", rseed());
     return c;
 }
